@@ -1,6 +1,9 @@
 """C04 — the normal operator A.N is A^H A.
 
 Shares the model, the protocol and the generators with C01 (harness/props/c01.py):
+translate: Gen/LinopNormal.lean (harness/translate/gen_c04.py) - every `_normal_linop` of sigpy/linop.py, the default rule, the
+  NUFFT Toeplitz operator chain and psf.shape - next to the generated `_adjoint_linop` table and the block / resize formulas;
+  Props/C04Gen.lean, C04Toeplitz.lean, C04Stationary.lean are theorems about these generated definitions;
 correspond: the implementation's matrix of A.N (basis vectors + a Gaussian-integer vector) against
   the Lean model's `denote (normal e)` (third matrix of the `mats` reply), for every class and
   random trees;
@@ -37,7 +40,8 @@ from harness.translate import gen as G
 
 PROPERTY = "C04"
 LEAN_MODULES = ["SigpyVerif.Props.C04", "SigpyVerif.Lemmas.C04Cover", "SigpyVerif.Lemmas.C04CoverND",
-                "SigpyVerif.Lemmas.C04CoverIff", "SigpyVerif.Props.C04Shortcut"]
+                "SigpyVerif.Lemmas.C04CoverIff", "SigpyVerif.Props.C04Shortcut", "SigpyVerif.Lemmas.C04B2aND",
+                "SigpyVerif.Props.C04Gen", "SigpyVerif.Props.C04Toeplitz", "SigpyVerif.Props.C04Stationary"]
 THEOREMS = ["SigpyVerif.C04." + t for t in [
     "normal_eq_default", "normal_default", "normal_gram", "circshift_normal_axis",
     "b2a1_a2b1_cover_partial", "coverScatter_eq_coverPairs", "b2a1_a2b1_cover", "cover_tiling", "cover_overlap",
@@ -54,12 +58,30 @@ THEOREMS = ["SigpyVerif.C04." + t for t in [
     "shortcut_normal_is_identity_identity", "shortcut_normal_is_identity_reshape",
     "shortcut_normal_is_identity_transpose", "shortcut_normal_is_identity_circshift", "shortcut_normal_is_identity",
     "isAdj_apply", "normal_denote_leaves",
+    # Lemmas/C04B2aND.lean: BlocksToArray.N = Identity iff no overlap / one block on every axis, 2-D and 3-D loop nests
+    "scatter_sum_unique", "scatter_sum_const", "a2b2_b2a2_apply", "b2a2_normal_identity_iff", "a2b3_b2a3_apply",
+    "b2a3_normal_identity_iff",
+    # Props/C04Gen.lean: about Gen/LinopNormal.lean (every `_normal_linop` of sigpy/linop.py, regenerated on every run)
+    "normal_overrides", "normalLeaf_eq_gen", "normal_eq_gen", "gen_shortcut_iff", "gen_shortcuts_exact", "normal_denote",
+    "compose_normal_nest", "fftTable_inv", "fft_shortcut_exact", "normalOpaque_table",
+    # Props/C04Toeplitz.lean: the generated NUFFT Toeplitz chain with the exact psf = A^H A of the exact NUDFT
+    "psfShape_eq", "chainMat1_gen", "toeplitz_chain_exact_1d", "chainMat2_gen", "toeplitz_chain_exact_2d", "chainMat3_gen",
+    "toeplitz_chain_exact_3d", "nufft_toeplitz_switch",
+    # Props/C04Stationary.lean: the normal equations are the stationarity condition / the minimisers of |Ax - y|^2
+    "objective_expand", "normal_equations_iff_stationary", "normal_equations_iff_stationary_tree", "normal_equations_minimise",
+    "minimiser_solves_normal_equations", "normal_equations_iff_minimiser_tree",
 ]] + ["SigpyVerif.C01.applyF_compE", "SigpyVerif.C01.adj_denote", "SigpyVerif.C01.adj_denote_leaves",
-      "SigpyVerif.C01.transpose_pair", "SigpyVerif.C01.gatherE_axmap_perm", "SigpyVerif.C01.circshift_entries"]
+      "SigpyVerif.C01.transpose_pair", "SigpyVerif.C01.gatherE_axmap_perm", "SigpyVerif.C01.circshift_entries",
+      "SigpyVerif.C01.adj_eq_gen", "SigpyVerif.C01.adjLeaf_eq_gen", "SigpyVerif.C05.fft_table_unitary",
+      "SigpyVerif.C05.ifft_table_eq_conjTranspose", "SigpyVerif.C06.toeplitz_structure", "SigpyVerif.C06.toeplitz_structure_2d",
+      "SigpyVerif.C06.toeplitz_structure_3d", "SigpyVerif.C06.toep_embed_len"]
 
 
 def translate(ctx):
-    G.regenerate(ctx, ["Block", "UtilFormulas", "LinopFormulas", "Interp"])
+    # LinopNormal (harness/translate/gen_c04.py): every `_normal_linop` of sigpy/linop.py; it is stated over the generated
+    # `_adjoint_linop` table (LinopAdjoint, gen_c01) and the psf-shape formula of toeplitz_psf (NufftFormulas, gen_c07)
+    G.regenerate(ctx, ["Block", "UtilFormulas", "LinopFormulas", "Interp", "InterpKernels", "NufftFormulas", "Fourier", "LinopAdjoint",
+                       "LinopNormal"])
 
 
 def block_layouts(rng, quick):
@@ -159,7 +181,12 @@ def correspond(ctx):
                      "b2a3_a2b3_cover); cover = 1 everywhere iff (S = B and B | L) or B = L (cover_one_iff_tiling - a single "
                      "block that spans the axis is the one non-tiling case); BlocksToArray.N = Identity iff B <= S or a "
                      "single block (b2a_normal_identity_iff, cover_le_one_iff)")
-    ctx.assumptions.append("FFT/IFFT normal = Identity is C05's unitarity theorem; the Toeplitz NUFFT normal's accuracy is "
+    ctx.notes.append("proved in Lean about Gen/LinopNormal.lean (every `_normal_linop` of sigpy/linop.py, regenerated on every run): "
+                     "normal_overrides, normal_eq_gen, normal_denote, gen_shortcuts_exact, fft_shortcut_exact (FFT/IFFT.N = Identity "
+                     "is A^H A: C05 unitarity), toeplitz_chain_exact_1d/_2d/_3d (generated Resize/FFT/Multiply chain with the exact "
+                     "psf = A^H A of the exact NUDFT), b2a2/b2a3_normal_identity_iff, normal_equations_iff_minimiser_tree")
+    ctx.assumptions.append("Toeplitz NUFFT normal: the structure (generated operator chain with the exact psf = exact Gram operator) is "
+                           "proved; the accuracy of the psf COMPUTED by toeplitz_psf (complex64 Kaiser-Bessel transforms) is "
                            "inherited from C06 (search oracle only: twice the C06 bound and 40 x the NUFFT's own accuracy "
                            "measured against the exact non-uniform DFT on the same coordinates, floor 5e-6 for the complex64 psf)")
     ctx.rule += ("; search oracle, Toeplitz NUFFT: case = history of 1-4 live NUFFT operators (grid 1-3 D, 0-2 leading batch "
